@@ -6,9 +6,11 @@ pub mod c04;
 pub mod c05;
 pub mod c06;
 pub mod c10;
+pub mod c12;
 pub mod c16;
 pub mod c17;
 pub mod c18;
+pub mod c19;
 pub mod c20;
 
 pub struct Prop {
@@ -24,9 +26,11 @@ pub fn all() -> Vec<Prop> {
         Prop { id: "C05", run: c05::run, replay: c05::replay },
         Prop { id: "C06", run: c06::run, replay: c06::replay },
         Prop { id: "C10", run: c10::run, replay: c10::replay },
+        Prop { id: "C12", run: c12::run, replay: c12::replay },
         Prop { id: "C16", run: c16::run, replay: c16::replay },
         Prop { id: "C17", run: c17::run, replay: c17::replay },
         Prop { id: "C18", run: c18::run, replay: c18::replay },
+        Prop { id: "C19", run: c19::run, replay: c19::replay },
         Prop { id: "C20", run: c20::run, replay: c20::replay },
     ]
 }
